@@ -7,16 +7,17 @@ package database
 // groupcache lru and singleflight, getCheckpointFromDB, calcCheckpointKey, MemDB.
 
 //verif:property C21
-//verif:bound 2 block headers (arbitrary height below 2^32, timestamp; 0..2 sup links each) with one checkpoint each (arbitrary status and timestamp); sequences of exactly N operations (quick N = 3, thorough N = 4), each one of: read checkpoint A, read checkpoint B, read header A, save a new version of checkpoint A (arbitrary status / timestamp)
+//verif:bound 2 block headers (arbitrary height below 2^32, timestamp; 0..2 sup links each) with one checkpoint each (arbitrary status and timestamp); sequences of exactly N operations (quick N = 3, thorough N = 4 and, with 1 sup link, 5), each one of: read checkpoint A, read checkpoint B, read header A, save a new version of checkpoint A (arbitrary status / timestamp)
 //verif:assume headers are immutable and served by a harness fill function that returns a fresh copy per call (as GetBlockHeader's UnmarshalText does); the checkpoint fill function is the real getCheckpointFromDB on a real MemDB
-//verif:assume solver side: json.Marshal / json.Unmarshal of state.Checkpoint are a handle table that keeps exactly the persisted fields (Parent and SupLinks carry json:"-"); bc.Hash.String (protobuf text) is an injective byte encoding; block header hashes are an uninterpreted collision-free function. The native replay uses the real ones
+//verif:assume solver side: json.Marshal / json.Unmarshal of state.Checkpoint are a handle table that keeps exactly the persisted fields (Parent and SupLinks carry json:"-"); bc.Hash.String (protobuf text) and hex.EncodeToString (used only to form cache keys) are injective byte encodings; block header hashes are an uninterpreted collision-free function. The native replay uses the real ones
 //verif:outside singleflight under real concurrency, LRU eviction (capacities 256..2048 are not reached), block transactions / height index / main-chain hash caches, SaveBlockHeader / SaveChainStatus invalidation, LevelDB
 //verif:override encoding/json.Marshal -> verifC21Marshal
 //verif:override encoding/json.Unmarshal -> verifC21Unmarshal
 //verif:override (*github.com/bytom/bytom/protocol/bc.Hash).String -> verifC21HashString
+//verif:override encoding/hex.EncodeToString -> verifC21Hex
 //verif:obligation fn=VerifC21Checkpoints args=3,1 validate=10 secs=1800
 //verif:obligation fn=VerifC21Checkpoints args=3,0;3,2 secs=1800
-//verif:obligation fn=VerifC21Checkpoints args=4,1;4,2 tier=thorough secs=3000
+//verif:obligation fn=VerifC21Checkpoints args=4,0;4,1;4,2;5,1 tier=thorough secs=3000
 
 import (
 	"errors"
@@ -55,6 +56,9 @@ func verifC21Unmarshal(data []byte, v interface{}) error {
 }
 
 func verifC21HashString(h *bc.Hash) string { return string(h.Bytes()) }
+
+// cache keys only need an injective text form of the database key
+func verifC21Hex(b []byte) string { return string(b) }
 
 type verifC21Node struct {
 	header *types.BlockHeader
